@@ -182,7 +182,10 @@ type streamBody func(x *engine.Exec, c *StreamCase)
 // streamFamilies enumerates the shared space of well-formed event streams (DESIGN §4):
 // tree shapes, scalar sweep, string sweep, length sweep, extended events; each x codec (x JSON options).
 func streamFamilies(tier string, run streamBody) []engine.Family {
-	maxNodes := tierPick(tier, 4, 6)
+	maxNodes := tierPick(tier, 5, 6)
+	if streamMaxNodes > 0 {
+		maxNodes = streamMaxNodes
+	}
 	nLeaves := tierPick(tier, 3, 4)
 	leaves := gen.ScalarLeaves(nLeaves)
 	keys := []string{"a", "b"}
@@ -287,6 +290,34 @@ func streamFamilies(tier string, run streamBody) []engine.Family {
 			}
 			mk(x, "lengths", cd, 0, evs)
 		}},
+		{Name: "deep", Arity: []int{3}, Body: func(x *engine.Exec) {
+			// nesting across the sizes of the inline stacks (32 / 64 entries) of encoders and parsers
+			cd := codecs[x.Choose(3)]
+			depth := []int{31, 32, 33, 34, 63, 64, 65, 66, 70}[x.Choose(9)]
+			kind := x.Choose(3) // arrays, objects, alternating
+			known := x.Bool()
+			l := -1
+			if known {
+				l = 1
+			}
+			var evs []model.Event
+			for i := 0; i < depth; i++ {
+				if kind == 1 || (kind == 2 && i%2 == 1) {
+					evs = append(evs, model.ObjStart(l, structform.AnyType), model.Key("k"))
+				} else {
+					evs = append(evs, model.ArrStart(l, structform.AnyType))
+				}
+			}
+			evs = append(evs, model.Str("leaf"))
+			for i := depth - 1; i >= 0; i-- {
+				if kind == 1 || (kind == 2 && i%2 == 1) {
+					evs = append(evs, model.ObjEnd())
+				} else {
+					evs = append(evs, model.ArrEnd())
+				}
+			}
+			mk(x, "deep", cd, 0, evs)
+		}},
 		{Name: "ext", Arity: []int{3, gen.NumContexts}, Body: func(x *engine.Exec) {
 			cd := codecs[x.Choose(3)]
 			ctx := x.Choose(gen.NumContexts)
@@ -297,6 +328,9 @@ func streamFamilies(tier string, run streamBody) []engine.Family {
 		}},
 	}...)
 }
+
+// streamMaxNodes, when set by a check while it builds its families, overrides the tree size bound.
+var streamMaxNodes int
 
 // sweepFloat32, when set by a check, is run by the thorough tier for every (codec, top byte).
 var sweepFloat32 func(x *engine.Exec, cd *Codec, hi uint32)
